@@ -9,7 +9,8 @@
     counter.  The [history_*] theorems quantify over operation lists of any
     length with a fresh oracle per operation. *)
 From BBS Require Import Common.Sx Common.ListX Compose.Mirrored
-  Compose.MirroredProofs Compose.MirroredFM Compose.MirroredHist.
+  Compose.MirroredProofs Compose.MirroredFM Compose.MirroredHist
+  Compose.MonSilentOp Run.R11 Run.R11Proofs.
 Local Open Scope nat_scope.
 
 (** ** Writes reach both replicas *)
@@ -260,4 +261,162 @@ Example ex_history :
   let '(st', rs) := run (mkst [] [] 0) h in
   map (fun r => is_nil (errs r)) rs = [false; true; true; true]
   /\ lookup (sA st') 0 = Some 5 /\ lookup (sB st') 0 = Some 5 /\ rnd st' = 2.
+Proof. vm_compute. repeat split. Qed.
+
+(** ** The property monitor is silent on the model and on every observation
+    the judge accepts (proofs: Compose/MonSilentOp.v, Run/R11Proofs.v).
+
+    One operation, at the level of the model: every clause of [check_op] and
+    the alternation clause hold on a step of the model, for ALL replica
+    contents, oracles and operations, and for every result [r] that shares
+    with the model's result [rm] the answer, success/failure, any subset of
+    its errors and the set of its replica calls (the same list for the
+    alternating operations): exactly the freedom the two goroutines of
+    Put/FindMissing leave. *)
+Theorem monitor11_silent_on_one_step : forall n o st p st' rm r,
+  step o st p = (st', rm) -> obs_rel p rm r ->
+  check_op n o (sA st) (sB st) p r (sA st') (sB st') = nil /\ check_alt (rnd st) p r = nil.
+Proof. exact mon11_one_step. Qed.
+Print Assumptions monitor11_silent_on_one_step.
+
+(** The monitor on whole traces, as the driver runs it.  [wf11_range inp]:
+    every digest mentioned by an operation is below the universe size (the
+    observation carries the replica contents for digests 0..n-1 only). *)
+Theorem monitor11_silent_on_model : forall inp,
+  wf11_range inp = true -> mon11 inp (run11 inp) = nil.
+Proof. exact mon11_silent_on_model. Qed.
+Print Assumptions monitor11_silent_on_model.
+
+(** Every observation [agree_ops] accepts (any ONE of the model's errors; for
+    Put/FindMissing any order of the call log, compared through [call_key]).
+    [wf11_keys inp]: the digests of Put/FindMissing operations are below
+    100000 ([call_key] packs the digest below that); [wf11_calls]: the call
+    log observed for a Put/FindMissing consists of well-formed encodings
+    (replica 0/1, kind 0..3, digest 0..99999). *)
+Theorem monitor11_silent_on_allowed_observations : forall inp obs,
+  wf11_range inp = true -> wf11_keys inp = true ->
+  wf11_calls (sx_list (sx_nth inp 3)) (sx_list obs) = true ->
+  is_panic obs = false ->
+  agree_ops (sx_nat (sx_nth inp 0)) (init_state inp) (sx_list (sx_nth inp 3)) (sx_list obs) = true ->
+  mon11 inp obs = nil.
+Proof. exact mon11_silent_on_allowed. Qed.
+Print Assumptions monitor11_silent_on_allowed_observations.
+
+(** For the judge the driver runs: "agree" implies "no violation". *)
+Theorem judge11_agree_implies_no_violation : forall inp obs,
+  wf11_range inp = true -> wf11_keys inp = true ->
+  wf11_calls (sx_list (sx_nth inp 3)) (sx_list obs) = true ->
+  verdict_agree (judge11 inp obs) = true -> verdict_violates (judge11 inp obs) = false.
+Proof. exact judge11_agree_not_violates. Qed.
+Print Assumptions judge11_agree_implies_no_violation.
+
+(** Non-vacuity: an existence check that repairs, an upload both of whose
+    branches fail, a read; the observation reports the OTHER branch's error
+    and logs the calls in another order than the model: all hypotheses hold,
+    the judge agrees, the observation is not the model's output. *)
+Definition c11_inp1 : sx :=
+  L [A 2; L [A 7; A (-1)]; L [A (-1); A (-1)];
+     L [L [A 2; L []; L [A 0; A 1]];
+        L [A 1; L [L [A 0; A 1; A 1; A 14]; L [A 1; A 1; A 1; A 13]]; A 1; A 3; A 0];
+        L [A 0; L []; A 0]]].
+Definition c11_obs1 : sx :=
+  L [L [A 1; L [A 1]; A 0; A 0; A 0;
+        L [L [A 1; A 2; A 0]; L [A 0; A 0; A 0]; L [A 0; A 2; A 0]; L [A 1; A 1; A 0]];
+        L [A 7; A (-1)]; L [A 7; A (-1)]];
+     L [A 0; L []; A 13; A 2; A 2; L [L [A 1; A 1; A 1]; L [A 0; A 1; A 1]];
+        L [A 7; A (-1)]; L [A 7; A (-1)]];
+     L [A 1; L [A 7]; A 0; A 0; A 0; L [L [A 0; A 0; A 0]]; L [A 7; A (-1)]; L [A 7; A (-1)]]].
+Example ex_allowed_observation :
+  wf11_range c11_inp1 = true /\ wf11_keys c11_inp1 = true
+  /\ wf11_calls (sx_list (sx_nth c11_inp1 3)) (sx_list c11_obs1) = true
+  /\ is_panic c11_obs1 = false
+  /\ agree_ops (sx_nat (sx_nth c11_inp1 0)) (init_state c11_inp1)
+       (sx_list (sx_nth c11_inp1 3)) (sx_list c11_obs1) = true
+  /\ sx_eqb (run11 c11_inp1) c11_obs1 = false
+  /\ mon11 c11_inp1 c11_obs1 = nil.
+Proof. vm_compute. repeat split. Qed.
+
+(** *** Each hypothesis is needed.
+
+    [wf11_range] (the harness refuses such inputs: [Exec] requires exactly n
+    initial atoms per replica and every digest in 0..n-1).  On the model's
+    own output: an upload of digest 1 with n = 1 (the observation cannot show
+    it: clause 2); with replica A initially holding digest 1 beyond n = 1, a
+    read of it (clause 3) and an existence check (clause 5). *)
+Example range_needed_put :
+  let inp := L [A 1; L [A (-1)]; L [A (-1)]; L [L [A 1; L []; A 1; A 5; A 0]]] in
+  wf11_range inp = false /\ mon11 inp (run11 inp) = [2%Z].
+Proof. vm_compute. split; reflexivity. Qed.
+Example range_needed_get :
+  let inp := L [A 1; L [A (-1); A 5]; L [A (-1)]; L [L [A 0; L []; A 1]]] in
+  wf11_range inp = false /\ mon11 inp (run11 inp) = [3%Z].
+Proof. vm_compute. split; reflexivity. Qed.
+Example range_needed_fm :
+  let inp := L [A 1; L [A (-1); A 5]; L [A (-1)]; L [L [A 2; L []; L [A 1]]]] in
+  wf11_range inp = false /\ mon11 inp (run11 inp) = [5%Z].
+Proof. vm_compute. split; reflexivity. Qed.
+
+(** [wf11_calls] (the harness cannot produce such a log: it writes replica
+    0/1, kind 0..3 and a digest of the universe).  A successful upload of
+    digest 0; the oracle fails a call the operation never makes.  The
+    observed log [(0 1 0) (0 11 0)] has the keys of the model's log
+    [(0 1 0) (1 1 0)] (0*10^6+11*10^5 = 1*10^6+1*10^5), so the judge agrees,
+    but it decodes to (A, GetCapabilities, 0), a failed call: clause 7.
+    Likewise with the out-of-range digest 100000: (0 0 100000) has the key of
+    (0 1 0). *)
+Example calls_wf_needed :
+  let inp := L [A 1; L [A (-1)]; L [A (-1)]; L [L [A 1; L [L [A 0; A 3; A 0; A 14]]; A 0; A 5; A 0]]] in
+  let obs := L [L [A 1; L []; A 0; A 0; A 0; L [L [A 0; A 1; A 0]; L [A 0; A 11; A 0]]; L [A 5]; L [A 5]]] in
+  wf11_range inp = true /\ wf11_keys inp = true
+  /\ wf11_calls (sx_list (sx_nth inp 3)) (sx_list obs) = false /\ is_panic obs = false
+  /\ agree_ops (sx_nat (sx_nth inp 0)) (init_state inp) (sx_list (sx_nth inp 3)) (sx_list obs) = true
+  /\ mon11 inp (run11 inp) = nil /\ mon11 inp obs = [7%Z].
+Proof. vm_compute. repeat split. Qed.
+Example calls_digest_bound_needed :
+  let inp := L [A 1; L [A (-1)]; L [A (-1)]; L [L [A 1; L [L [A 0; A 0; A 100000; A 14]]; A 0; A 5; A 0]]] in
+  let obs := L [L [A 1; L []; A 0; A 0; A 0; L [L [A 0; A 0; A 100000]; L [A 1; A 1; A 0]]; L [A 5]; L [A 5]]] in
+  wf11_range inp = true /\ wf11_keys inp = true
+  /\ wf11_calls (sx_list (sx_nth inp 3)) (sx_list obs) = false /\ is_panic obs = false
+  /\ agree_ops (sx_nat (sx_nth inp 0)) (init_state inp) (sx_list (sx_nth inp 3)) (sx_list obs) = true
+  /\ mon11 inp (run11 inp) = nil /\ mon11 inp obs = [7%Z].
+Proof. vm_compute. repeat split. Qed.
+
+(** [wf11_keys] (the harness bounds the universe by 6).  With every digest
+    in range it can only fail for a universe above 100000, where evaluating
+    the monitor costs ~10^10 steps; so the witness is a theorem for every
+    [n] > [d] = 100000: an upload of [d] whose B branch is answered
+    NOT_FOUND, observed with the call log [(0 2 0) (1 2 0)] (the keys of
+    the model's [(0 1 d) (1 1 d)]): all other hypotheses hold, the judge
+    agrees, the monitor is silent on the model's output and clause 8 fires
+    on the observation.  The second example is the same collision at n = 1
+    (cheap to evaluate, but out of range as well). *)
+Theorem keys_needed : forall n d, Z.of_nat d = 100000%Z -> d < n ->
+  wf11_range (kn_inp n) = true
+  /\ wf11_keys (kn_inp n) = false
+  /\ wf11_calls (sx_list (sx_nth (kn_inp n) 3)) (sx_list (kn_obs n d)) = true
+  /\ is_panic (kn_obs n d) = false
+  /\ agree_ops (sx_nat (sx_nth (kn_inp n) 0)) (init_state (kn_inp n))
+       (sx_list (sx_nth (kn_inp n) 3)) (sx_list (kn_obs n d)) = true
+  /\ mon11 (kn_inp n) (run11 (kn_inp n)) = nil
+  /\ In 8%Z (mon11 (kn_inp n) (kn_obs n d)).
+Proof. exact keys_hypothesis_needed. Qed.
+Print Assumptions keys_needed.
+Example keys_needed_instance :
+  let n := Z.to_nat 100001 in let d := Z.to_nat 100000 in
+  wf11_range (kn_inp n) = true /\ wf11_keys (kn_inp n) = false
+  /\ In 8%Z (mon11 (kn_inp n) (kn_obs n d)).
+Proof.
+  cbv zeta.
+  destruct (keys_hypothesis_needed (Z.to_nat 100001) (Z.to_nat 100000)) as (H1 & H2 & _ & _ & _ & _ & H7).
+  - apply Z2Nat.id. discriminate.
+  - apply Z2Nat.inj_lt; [discriminate|discriminate|reflexivity].
+  - exact (conj H1 (conj H2 H7)).
+Qed.
+Example keys_needed_small :
+  let inp := L [A 1; L [A (-1)]; L [A (-1)]; L [L [A 1; L [L [A 1; A 1; A 100000; A 5]]; A 100000; A 5; A 0]]] in
+  let obs := L [L [A 0; L []; A 5; A 2; A 2; L [L [A 0; A 2; A 0]; L [A 1; A 2; A 0]]; L [A (-1)]; L [A (-1)]]] in
+  wf11_keys inp = false
+  /\ wf11_calls (sx_list (sx_nth inp 3)) (sx_list obs) = true /\ is_panic obs = false
+  /\ agree_ops (sx_nat (sx_nth inp 0)) (init_state inp) (sx_list (sx_nth inp 3)) (sx_list obs) = true
+  /\ mon11 inp (run11 inp) = nil /\ mon11 inp obs = [8%Z].
 Proof. vm_compute. repeat split. Qed.
